@@ -136,7 +136,20 @@ class RecDB(object):
             r.fault_next = False
             raise sqlite3.OperationalError("database is locked (injected)")
         r.nexec += 1
-        return self._conn.execute(*a, **kw)
+        cur = self._conn.execute(*a, **kw)
+        if not self._conn.in_transaction and a and isinstance(a[0], str) and \
+                a[0].lstrip()[:6].upper() in ("INSERT", "UPDATE", "DELETE"):
+            # a write outside any transaction is durable at once (connection in autocommit
+            # mode): it is a commit boundary, and a crash point, of its own
+            snap = raw_dump(self._conn, self._which)
+            if snap != self._last:
+                self.__dict__["_last"] = snap
+                r.event("C " + self._which)
+                r.ncommit += 1
+                if r.crash_at is not None and r.ncommit == r.crash_at:
+                    r.crash_raised = True
+                    raise Crash()
+        return cur
 
     def commit(self):
         r = self._r
